@@ -95,6 +95,11 @@ class D(Driver):
             cs.append(("random", seed, k, 60))
         for k in range(8 if tier == "quick" else 48):
             cs.append(("shapes", seed, k, 250))
+        from picomon.gen import corpus as _corpus
+
+        _nf = len(_corpus.files())
+        for _i in range(0, _nf, 12 if tier == "thorough" else 60):
+            cs.append(("pipeline", _i, min(_nf, _i + 12)))
         return cs
 
     def setup_worker(self, tier, seed):
@@ -154,6 +159,21 @@ class D(Driver):
 
     def run_case(self, case):
         kind = case[0]
+        if case[0] == "pipeline":
+            # every call of the monitored functions made while converting real documents
+            from picomon import conv as _conv
+            from picomon.gen import corpus as _corpus
+
+            res = new_result()
+            rewritemon.STATE["seen"] = set()
+            rewritemon.STATE["sample_cap"] = 4000
+            for _f in _corpus.files()[case[1]:case[2]]:
+                _st, _ = _conv.convert(open(_f).read())
+                res["evals"] += 1
+                bump(res["features"], "pipeline_documents")
+            rewritemon.STATE["seen"] = None
+            rewritemon.STATE["sample_cap"] = None
+            return self._collect(res)
         res = new_result()
         if kind == "special":
             for d in SPECIALS:
